@@ -358,8 +358,8 @@ def run(ctx, rep, tier):
         if p.atoms.get("F:ALLOCATE_STR_SPACE_DYNAMIC") is not True:
             continue
         loops = [it for it in fp.lines(p) if isinstance(it, LoopBlock) and "self.state_object_spec" in it.iter_src]
-        if len(loops) != 2:
-            raise AnalysisError("start(): expected two loops over the outputs under DYNAMIC (defaults, then heap init)")
+        if len(loops) not in (2, 3):      # defaults, heap init[, initial terminator - its absence is C03.n's business]
+            raise AnalysisError("start(): expected the loops defaults / heap init / initial terminator over the outputs under DYNAMIC")
         # loop 1: defaults of heap strings malloc before memcpy
         for delta, sub, endk, end in loops[0].bodies:
             evs = [e for e in events_of(sub) if e.kind != "COMMENT"]
@@ -761,3 +761,67 @@ def run(ctx, rep, tier):
     _run_l05(ctx, rep, tier)
     from .shared import delegate
     delegate(ctx, rep, tier, "C05", ("C05.l",), "C03.k", "the input pointer is never advanced twice for one byte (early advance for a yield + re-dispatch by an overflowing append): feed() would read past `end`")
+
+
+# ---------------------------------------------------------------------------------------------------------------- C03.l / m / n
+def _start_time_strings(ctx, rep, tier):
+    import ast, re
+    model, E = ctx.model, ctx.emit
+    # C03.l - no unconditional allocation in an action template (an earlier action, also among the start actions, may have allocated already)
+    rep.rule("C03.l", "action templates allocate on-demand strings only through the NULL-guarded form (an unconditional malloc leaks what an earlier action allocated)")
+    n = 0
+    for cl in [c for c in model.concrete_subclasses("Action") if c != "Action"]:
+        fp = E.enumerate(ACT, classes={"action": cl})
+        for p in fp.paths:
+            for e in events_of(fp.lines(p)):
+                if e.kind == "MALLOC":
+                    n += 1
+                    rep.check(e.c == "guarded", "C03.l", ACT, f"{cl}: allocation is `if (!x) x = malloc(..)`", f"{cl} allocates unconditionally ({e.text.strip()}): with on-demand allocation two assignments "
+                              "among the start actions (`x = \"a\"; x = \"b\";` before the first match) leak the first buffer")
+    if n < 3:
+        raise AnalysisError(f"C03.l: only {n} allocation events found in action templates")
+    # C03.m - sizes
+    rep.rule("C03.m", "declared string sizes below 1 are refused (a terminated str[0] has usable size -1: the capacity test of an append can never fire)")
+    q = "ParseCtx._parse_out_decl"
+    ok = model.has(q, "str_size = self._convert_int(type_obj.children[0].value)\nif str_size < 1:\n    raise IllegalParseTree($$m, type_obj.children[0])")
+    mk = [c for c in ast.walk(model.func(q)) if isinstance(c, ast.Call) and ast.unparse(c.func) == "OutputStorage" and any(k.arg == "str_size" for k in c.keywords)]
+    rep.check(ok and len(mk) == 1 and ast.unparse(next(k.value for k in mk[0].keywords if k.arg == "str_size")) == "str_size", "C03.m", q, "the validated size is the one stored",
+              "`out str[0] x;` / negative sizes are accepted: the capacity comparison `counter == -1` never holds and every append writes outside the buffer")
+    # C03.n - initial terminator
+    rep.rule("C03.n", "start(): a terminated string without default is terminated at length 0 as soon as it has a buffer (after the heap-init loop, before the start actions)")
+    fp = E.enumerate("CodegenCtx._generate_start_implementation")
+    seen = 0
+    for p in fp.paths:
+        items = list(fp.lines(p))
+        loops = [it for it in items if isinstance(it, LoopBlock) and "self.state_object_spec" in it.iter_src]
+        term = None
+        for it in loops:
+            for delta, sub, endk, end in it.bodies:
+                if any(e.kind == "WRITE" and e.b == "0" and e.c == "0" for e in events_of(sub)):
+                    term = it
+        on_demand = p.atoms.get("F:ALLOCATE_STR_SPACE_DYNAMIC_ON_DEMAND") is True
+        if term is None:
+            rep.check(on_demand, "C03.n", "CodegenCtx._generate_start_implementation", "no initial terminator only when there is no buffer yet (on-demand allocation)",
+                      "start() never writes the terminator of a string without default: x[0] is whatever the caller's memory / a fresh malloc holds while the length is 0")
+            continue
+        seen += 1
+        heap = [it for it in loops if any(e.kind in ("MALLOC", "NULLIFY") for _, sub, _, _ in it.bodies for e in events_of(sub)) and it is not term and it is not loops[0]]
+        rep.check(all(items.index(h) < items.index(term) for h in heap), "C03.n", "CodegenCtx._generate_start_implementation", "terminator written after the buffer exists", "terminator written before allocation")
+        for delta, sub, endk, end in term.bodies:
+            writes = [e for e in events_of(sub) if e.kind == "WRITE"]
+            conds = {k: b for k, b in delta.items()}
+            if writes:
+                no_default = conds.get("out_expr.default_value is not None") is False or conds.get("out_expr.default_value is None") is True
+                is_str = conds.get("out_expr.type != OutputStorageType.STR") is False or conds.get("out_expr.type == OutputStorageType.STR") is True
+                need = no_default and is_str and conds.get("out_expr.str_null") is True
+                rep.check(need and conds.get("F:ALLOCATE_STR_SPACE_DYNAMIC_ON_DEMAND") is not True, "C03.n", "CodegenCtx._generate_start_implementation", "terminator for exactly: STR, terminated, no default, buffer present",
+                          f"initial terminator emitted under {conds}")
+    rep.count("start_paths_with_initial_terminator", seen)
+
+
+_run_lmn = run
+
+
+def run(ctx, rep, tier):
+    _run_lmn(ctx, rep, tier)
+    _start_time_strings(ctx, rep, tier)
